@@ -843,6 +843,18 @@ func (c *SCtx) evalCall(e *SExpr) *Val {
 		c2 := *c
 		c2.cur = c.loopPre
 		c2.goal = false
+		if c.fr != nil && len(c.env) > 0 {
+			// in postconditions parameter names are bound to the entry values; inside atentry they denote
+			// the variables (their value at the loop entry), as in loop invariants
+			env2 := map[string]*Val{}
+			for k, v := range c.env {
+				env2[k] = v
+			}
+			for _, p := range c.fr.fn.Params {
+				delete(env2, p.Name())
+			}
+			c2.env = env2
+		}
 		return c2.eval(e.Args[0])
 	case "same":
 		if len(e.Args) != 1 {
